@@ -13,8 +13,8 @@ func init() {
 	jobs = append(jobs, job{props: []string{"C15", "C19"}, fn: genC15Ticket})
 }
 
-// callName returns the selector / identifier name of a call's function.
-func callName(c *ast.CallExpr) string {
+// decCallName returns the selector / identifier name of a call's function.
+func decCallName(c *ast.CallExpr) string {
 	switch f := c.Fun.(type) {
 	case *ast.SelectorExpr:
 		return f.Sel.Name
@@ -24,17 +24,17 @@ func callName(c *ast.CallExpr) string {
 	return ""
 }
 
-// recordsIn lists, in source order, the tlv.MakePrimitiveRecord /
+// decRecordsIn lists, in source order, the tlv.MakePrimitiveRecord /
 // tlv.MakeStaticRecord calls inside a function body as
 // (type constant, kind) where kind is "prim" or
 // "static:<size>:<enc>:<dec>".
-func recordsIn(fd *ast.FuncDecl, ce *constEnv) (typs []string, kinds []string) {
+func decRecordsIn(fd *ast.FuncDecl, ce *constEnv) (typs []string, kinds []string) {
 	ast.Inspect(fd.Body, func(n ast.Node) bool {
 		c, ok := n.(*ast.CallExpr)
 		if !ok {
 			return true
 		}
-		switch callName(c) {
+		switch decCallName(c) {
 		case "MakePrimitiveRecord":
 			if len(c.Args) != 2 {
 				fail("%s: MakePrimitiveRecord with %d args", fd.Name.Name, len(c.Args))
@@ -56,13 +56,13 @@ func recordsIn(fd *ast.FuncDecl, ce *constEnv) (typs []string, kinds []string) {
 	return
 }
 
-// streamCall returns the name of the tlv.Stream decode method a function
+// decStreamCall returns the name of the tlv.Stream decode method a function
 // calls (Decode, DecodeP2P, DecodeWithParsedTypes, DecodeWithParsedTypesP2P).
-func streamCall(fd *ast.FuncDecl) string {
+func decStreamCall(fd *ast.FuncDecl) string {
 	var res []string
 	ast.Inspect(fd.Body, func(n ast.Node) bool {
 		if c, ok := n.(*ast.CallExpr); ok {
-			if nm := callName(c); strings.HasPrefix(nm, "Decode") {
+			if nm := decCallName(c); strings.HasPrefix(nm, "Decode") {
 				res = append(res, nm)
 			}
 		}
@@ -143,17 +143,55 @@ func genC15Ticket() {
 			fail("sidecar.%s not found", fn)
 			continue
 		}
-		typs, kinds := recordsIn(fd, ce)
+		typs, kinds := decRecordsIn(fd, ce)
 		l.p("def %sTypes : List Nat := [%s]", fn, strings.Join(typs, ", "))
 		l.p("def %sKinds : List String := %s", fn, leanStrList(kinds))
 	}
+	// codec.go DecodeString: the conditions of the `if`s that return the
+	// prefix / checksum errors, as written in the source
+	prefixCond, checksumCond := "", ""
+	if fd := findFunc(files, "DecodeString"); fd == nil {
+		fail("sidecar.DecodeString not found")
+	} else {
+		ast.Inspect(fd.Body, func(n ast.Node) bool {
+			is, ok := n.(*ast.IfStmt)
+			if !ok {
+				return true
+			}
+			body := ""
+			for _, st := range is.Body.List {
+				if rs, ok := st.(*ast.ReturnStmt); ok {
+					for _, e := range rs.Results {
+						body += exprString(e)
+					}
+				}
+			}
+			switch {
+			case strings.Contains(body, "invalid prefix") && !strings.Contains(exprString(is.Cond), "len("):
+				prefixCond = exprString(is.Cond)
+			case strings.Contains(body, "checksum"):
+				checksumCond = exprString(is.Cond)
+			}
+			return true
+		})
+		if prefixCond == "" || checksumCond == "" {
+			fail("DecodeString: prefix / checksum comparison not found")
+		}
+	}
+	l.p("def decodeStringPrefixCond : String := %q", prefixCond)
+	l.p("def decodeStringChecksumCond : String := %q", checksumCond)
+
 	for _, fn := range []string{"DeserializeTicket", "decodeBytes"} {
 		fd := findFunc(files, fn)
 		if fd == nil {
 			fail("sidecar.%s not found", fn)
 			continue
 		}
-		l.p("def %sCall : String := %q", fn, streamCall(fd))
+		l.p("def %sCall : String := %q", fn, decStreamCall(fd))
 	}
 	l.p("end Pool.Gen.C15")
 }
+
+// callName is kept under its old name because lifecycle_facts.go (tag
+// lifecycle) uses it since the merge of round 1.
+func callName(c *ast.CallExpr) string { return decCallName(c) }
